@@ -34,6 +34,8 @@ RULE = ("Hypothesis draws a type program biased to naming features: classes / Ne
         "A second enumerated family (156 cases) gives the name through Annotated[T, type_name('Tags')] with T in {Tag, List[Tag], Dict[str, Tag], "
         "Optional[Tag]} used 1-3 times (+ Tag used directly or not) and an unnamed class recursive through such an annotation: $defs must be exactly "
         "the names used more than once / all of them / the recursive one.  "
+        "A third enumerated family (288 cases) uses NewTypes of named NewTypes (1-3 levels, with / without a pattern) as mapping key, twice as key, as element and "
+        "as key + value: no crash, valid schema, no dangling $ref, a conforming datum validates.  "
         "A small enumerated family covers inherited discriminators (@discriminator on a plain or dataclass base, two dataclass children, "
         "roots Base / a child / a holder of children / List[Base] / Union of the children / Optional[Base] x all_refs x direction): generation does "
         "not raise, the schema is meta-schema valid, every $ref and discriminator mapping target is defined, validating a datum terminates.  "
@@ -220,6 +222,7 @@ def enumerate_cases(tier):
             continue
         yield {"disc_family": True, "base_dataclass": base_dataclass, "base_field": base_field, "root": root, "all_refs": all_refs, "entry": entry}
     yield from ann_cases()
+    yield from chain_cases()
 
 
 def evaluate_disc(case, ctx):
@@ -342,11 +345,67 @@ def evaluate_ann(case, ctx):
         b.close()
 
 
+def chain_source(case) -> str:
+    """NewTypes of NewTypes (named at every level) as mapping key / element / field type."""
+    lines = ["N1 = NewType('N1', str)"]
+    if case["pattern"]:
+        lines.append("schema(pattern='^a')(N1)")
+    lines += ["N2 = NewType('N2', N1)", "N3 = NewType('N3', N2)"]
+    top = {1: "N1", 2: "N2", 3: "N3"}[case["depth"]]
+    lines.append("ROOT = " + {"key": f"Dict[{top}, int]", "list": f"List[{top}]", "key_twice": f"Tuple[Dict[{top}, int], Dict[{top}, str]]",
+                              "field": f"Dict[str, Dict[{top}, {top}]]"}[case["place"]])
+    return "\n".join(lines) + "\n"
+
+
+def chain_cases():
+    for depth, place, pattern, all_refs, entry in itertools.product((1, 2, 3), ("key", "list", "key_twice", "field"), (False, True), (None, True, False),
+                                                                   ("deserialization", "serialization")):
+        yield {"chain_family": True, "depth": depth, "place": place, "pattern": pattern, "all_refs": all_refs, "entry": entry}
+
+
+def evaluate_chain(case, ctx):
+    ctx.count()
+    src = build.PRELUDE + chain_source(case)
+    try:
+        b = build.load({"future": False, "enums": [], "newtypes": [], "classes": []}, source=src)
+    except Exception as e:
+        raise HarnessError(f"NewType-chain program does not build: {e!r}\n{src}")
+    sig0 = {"family": "newtype_chain", "depth": case["depth"], "place": case["place"], "all_refs": str(case["all_refs"])}
+    try:
+        fn = deserialization_schema if case["entry"] == "deserialization" else serialization_schema
+        kw = {} if case["all_refs"] is None else {"all_refs": case["all_refs"]}
+        try:
+            schema = json.loads(json.dumps(fn(b.root, **kw)))
+        except BaseException as e:
+            ctx.violation({"kind": "crash", "exc": type(e).__name__, **sig0}, case, f"{type(e).__name__}: {e}\n{chain_source(case)}")
+            return
+        bad = jsoracle.check_schema(schema, "2020-12")
+        if bad:
+            ctx.violation({"kind": "invalid_against_declared_dialect", **sig0}, case, f"{bad}\n{tdcase.compact(schema, 700)}")
+            return
+        defs = schema.get("$defs", {})
+        dangling = sorted({r for r in collect_refs(schema) if not (r.startswith("#/$defs/") and r[len("#/$defs/"):] in defs)})
+        if dangling:
+            ctx.violation({"kind": "dangling_ref", **sig0}, case, f"{dangling} not in $defs {sorted(defs)}\n{tdcase.compact(schema, 900)}")
+            return
+        good = {"key": {"ab": 1}, "list": ["ab"], "key_twice": [{"ab": 1}, {"ab": "x"}], "field": {"k": {"ab": "ab"}}}[case["place"]]
+        v = jsoracle.validator(schema)
+        if not v.is_valid(good):
+            ctx.violation({"kind": "conforming_datum_rejected_by_schema", **sig0}, case, f"{good!r} against {tdcase.compact(schema, 900)}")
+            return
+        ctx.nontriv(["chain_family", case])
+        ctx.h("chain_family")
+    finally:
+        b.close()
+
+
 def evaluate(case, ctx):
     if case.get("disc_family"):
         return evaluate_disc(case, ctx)
     if case.get("ann_family"):
         return evaluate_ann(case, ctx)
+    if case.get("chain_family"):
+        return evaluate_chain(case, ctx)
     prog, opts = case["prog"], case["opts"]
     ctx.count()
     try:
